@@ -292,6 +292,8 @@ func main() {
 		runPlan(ctx, w, *tier, *outDir, *only)
 	case "fault":
 		runFault(ctx, w, *tier, tmp, *outDir, *only)
+	case "lock":
+		runLock(ctx, w, *tier, tmp, *outDir, *only)
 	default:
 		fmt.Fprintln(os.Stderr, "unknown mode", *mode)
 		os.Exit(2)
